@@ -47,6 +47,7 @@ type Prog struct {
 	Funcs []*ssa.Function
 
 	nFiles int
+	nCanon int // operand pairs reordered by canonicaliseOperands
 }
 
 func goEnv(goarch string) []string {
@@ -151,6 +152,11 @@ func Load(repoDir, goarch string, overlay map[string][]byte) (p *Prog, err error
 			}
 		}
 		p.Funcs = append(p.Funcs, fn)
+	}
+	if os.Getenv("SONICSA_NOCANON") == "" {
+		for _, fn := range p.Funcs {
+			p.nCanon += canonicaliseOperands(fn)
+		}
 	}
 	sort.Slice(p.Funcs, func(i, j int) bool {
 		a, b := p.Funcs[i], p.Funcs[j]
